@@ -29,6 +29,7 @@ from .roi import (
     roi_center,
     roi_from_points,
     roi_is_empty,
+    scaled_down_shape,
     scaled_up_roi,
 )
 from .types import XY, SomeResolution, SomeShape, res_, shape_, xy_
@@ -222,11 +223,13 @@ def get_scale_at_point(
     pts0 = [(0, 0), (-1, 0), (0, -1), (1, 0), (0, 1)]
     x0, y0 = pt.xy
     if r is None:
-        XX = [xy_(float(x + x0), float(y + y0)) for x, y in pts0]
-    else:
-        XX = [xy_(float(x * r + x0), float(y * r + y0)) for x, y in pts0]
+        r = 1
+    dX = [xy_(float(x * r), float(y * r)) for x, y in pts0]
+    XX = [xy_(float(dx + x0), float(dy + y0)) for dx, dy in (p.xy for p in dX)]
     YY = tr(XX)
-    A = affine_from_pts(XX, YY)
+    # fit against offsets from ``pt``: only the linear part is needed, and the fit
+    # stays well conditioned when ``pt`` is far away from the origin
+    A = affine_from_pts(dX, YY)
     return get_scale_from_linear_transform(A)
 
 
@@ -533,10 +536,11 @@ def compute_reproject_roi(
             roi_src, roi_dst = box_overlap(src.shape, dst.shape, A_)
         else:
             # compute overlap in scaled down image, then upscale source overlap
-            assert isinstance(src, GeoBox)
-            _src = src.zoom_out(read_shrink)
+            # not ``src.zoom_out(..).shape``: that one is never smaller than 1x1,
+            # overview of an empty image is empty
+            _src_shape = scaled_down_shape(src.shape, read_shrink)
             A_ = snap_affine(Affine.scale(1 / read_shrink) * A, ttol=ttol, stol=stol)
-            roi_src, roi_dst = box_overlap(_src.shape, dst.shape, A_)
+            roi_src, roi_dst = box_overlap(_src_shape, dst.shape, A_)
             roi_src = scaled_up_roi(roi_src, read_shrink)
     else:
         padding = 1 if padding is None else padding
